@@ -813,3 +813,152 @@ def c17_pairs(seed):
                     b=HistorySide(text, ['N'], ('table', '%s.M' % dataset), label='first run'),
                     label='rerun table %s %s' % ('>'.join(hist), notes), **common))
   return pairs
+
+
+# ---------------------------------------------------------------- C12: imports
+
+class ImportSide(Side):
+  """A program split over files in a scratch directory (written on build, removed after)."""
+
+  def __init__(self, files, main_text, pred, roots=('',), label=''):
+    Side.__init__(self, main_text, pred, label=label)
+    self.files = files      # {relative path: text}
+    self.roots = roots      # sub-directories acting as import roots
+
+  def _materialise(self):
+    import tempfile, os
+    d = tempfile.mkdtemp(prefix='logica_verif_c12_')
+    for rel, text in self.files.items():
+      p = os.path.join(d, rel)
+      os.makedirs(os.path.dirname(p), exist_ok=True)
+      with open(p, 'w') as f:
+        f.write(text)
+    roots = [os.path.join(d, r) if r else d for r in self.roots]
+    return d, (roots if len(roots) > 1 else roots[0] + '/')
+
+  def build(self, D, strings, range_bound, compaction):
+    import shutil
+    from . import e1
+    d, root = self._materialise()
+    try:
+      side = e1.SqlSide(self.text, self.pred, D, strings, range_bound, compaction, import_root=root)
+    finally:
+      shutil.rmtree(d, ignore_errors=True)
+    return side
+
+
+def module_rules(rnd, uses=None, own='P', style=0):
+  """rules of one module: a private Helper (same name in every module) and an exported
+  predicate; `uses` = (name, arity) of an imported predicate to call."""
+  A = gen.A
+  x, y, z = Var('x'), Var('y'), Var('z')
+  h = rnd.choice([A('E', x, y), A('F', x, y), A('F', y, x), Conj([A('E', x, z), A('F', z, y)])])
+  rules = [Rule('Helper', [x, y], body=h)]
+  body = [A('Helper', x, y)]
+  if uses:
+    body.append(A(uses, x) if rnd.random() < 0.5 else A(uses, y))
+  if rnd.random() < 0.4:
+    body.append(Cmp(rnd.choice(['<', '!=', '>=']), x, y))
+  rules.append(Rule(own, [x], distinct=rnd.random() < 0.3, body=Conj(body)))
+  return rules
+
+
+def render_module(rules, imports):
+  lines = ['import %s.%s%s;' % (f, p, (' as ' + a) if a else '') for f, p, a in imports]
+  return '\n'.join(lines + [render_rule(r) for r in rules]) + '\n'
+
+
+def c12_pairs(seed):
+  rnd = random.Random(seed ^ 0xc12)
+  A = gen.A
+  x, y = Var('x'), Var('y')
+  layout = ['chain', 'diamond', 'same_private', 'shared_base', 'alias', 'two_roots', 'self_apply',
+            'shared_base', 'diamond'][seed % 9]
+  files = {}
+  flat = []
+  roots = ('',)
+
+  def flat_module(rules, prefix, ren_extra=None):
+    m = {r.pred: prefix + r.pred for r in rules}
+    if ren_extra:
+      m.update(ren_extra)
+    return [rename_rule_preds(r, m) for r in rules]
+
+  if layout == 'chain':
+    r2 = module_rules(rnd, own='P2')
+    r1 = module_rules(rnd, uses='P2', own='P1')
+    files['lib/m2.l'] = render_module(r2, [])
+    files['lib/m1.l'] = render_module(r1, [('lib.m2', 'P2', None)])
+    main_rules = [Rule('T', [x], body=Conj([A('P1', x), A('G', x)]))]
+    main_imports = [('lib.m1', 'P1', None)]
+    flat = flat_module(r2, 'M2x_') + flat_module(r1, 'M1x_', {'P2': 'M2x_P2'}) + \
+        [rename_rule_preds(r, {'P1': 'M1x_P1'}) for r in main_rules]
+  elif layout == 'diamond':
+    r3 = module_rules(rnd, own='P3')
+    r1 = module_rules(rnd, uses='P3', own='P1')
+    r2 = module_rules(rnd, uses='P3', own='P2')
+    files['m3.l'] = render_module(r3, [])
+    files['m1.l'] = render_module(r1, [('m3', 'P3', None)])
+    files['m2.l'] = render_module(r2, [('m3', 'P3', None)])
+    main_rules = [Rule('T', [x], body=Disj([A('P1', x), A('P2', x)]))]
+    main_imports = [('m1', 'P1', None), ('m2', 'P2', None)]
+    flat = (flat_module(r3, 'M3x_') + flat_module(r1, 'M1x_', {'P3': 'M3x_P3'}) +
+            flat_module(r2, 'M2x_', {'P3': 'M3x_P3'}) +
+            [rename_rule_preds(r, {'P1': 'M1x_P1', 'P2': 'M2x_P2'}) for r in main_rules])
+  elif layout == 'same_private':
+    r1 = module_rules(rnd, own='P1')
+    r2 = module_rules(rnd, own='P2')
+    files['m1.l'] = render_module(r1, [])
+    files['m2.l'] = render_module(r2, [])
+    # main has its own Helper as well
+    main_rules = [Rule('Helper', [x], body=A('G', x)),
+                  Rule('T', [x], body=Conj([A('P1', x), A('P2', x), A('Helper', x)]))]
+    main_imports = [('m1', 'P1', None), ('m2', 'P2', None)]
+    flat = (flat_module(r1, 'M1x_') + flat_module(r2, 'M2x_') +
+            [rename_rule_preds(r, {'P1': 'M1x_P1', 'P2': 'M2x_P2'}) for r in main_rules])
+  elif layout == 'shared_base':
+    r1 = module_rules(rnd, own='Pa')
+    r2 = module_rules(rnd, own='Pb')
+    files['a/util.l'] = render_module(r1, [])
+    files['b/util.l'] = render_module(r2, [])
+    main_rules = [Rule('T', [x], body=Disj([A('Pa', x), A('Pb', x)]))]
+    main_imports = [('a.util', 'Pa', None), ('b.util', 'Pb', None)]
+    if rnd.random() < 0.5:
+      main_imports.reverse()
+    flat = (flat_module(r1, 'Ax_') + flat_module(r2, 'Bx_') +
+            [rename_rule_preds(r, {'Pa': 'Ax_Pa', 'Pb': 'Bx_Pb'}) for r in main_rules])
+  elif layout == 'alias':
+    r1 = module_rules(rnd, own='P1')
+    r2 = module_rules(rnd, own='P1')      # same exported name in another file
+    files['m1.l'] = render_module(r1, [])
+    files['m2.l'] = render_module(r2, [])
+    main_rules = [Rule('T', [x], body=Conj([A('Q', x), A('P1', x)]))]
+    main_imports = [('m1', 'P1', 'Q'), ('m2', 'P1', None)]
+    flat = (flat_module(r1, 'M1x_') + flat_module(r2, 'M2x_') +
+            [rename_rule_preds(r, {'Q': 'M1x_P1', 'P1': 'M2x_P1'}) for r in main_rules])
+  elif layout == 'two_roots':
+    r1 = module_rules(rnd, own='P1')
+    r2 = module_rules(rnd, uses='P1', own='P2')
+    files['root1/m1.l'] = render_module(r1, [])
+    files['root2/m2.l'] = render_module(r2, [('m1', 'P1', None)])
+    roots = ('root1', 'root2')
+    main_rules = [Rule('T', [x], body=A('P2', x))]
+    main_imports = [('m2', 'P2', None)]
+    flat = (flat_module(r1, 'M1x_') + flat_module(r2, 'M2x_', {'P1': 'M1x_P1'}) +
+            [rename_rule_preds(r, {'P2': 'M2x_P2'}) for r in main_rules])
+  else:  # self_apply: a predicate applied to its own result inside the module
+    step = Rule('Step', [x], value=Bin('+', x, Num(rnd.choice([1, 2]))))
+    twice = Rule('Twice', [x], value=Call('Step', [Call('Step', [x], [])], []))
+    use = Rule('P1', [x, y], body=Conj([A('G', x), Cmp('==', y, Call('Twice', [x], []))]))
+    r1 = [step, twice, use]
+    files['m1.l'] = render_module(r1, [])
+    main_rules = [Rule('Step', [x], value=Bin('+', x, Num(100))),
+                  Rule('T', [x, y], body=Conj([A('P1', x, Var('z')), Cmp('==', y, Call('Step', [Var('z')], []))]))]
+    main_imports = [('m1', 'P1', None)]
+    flat = flat_module(r1, 'M1x_') + [rename_rule_preds(r, {'P1': 'M1x_P1'}) for r in main_rules]
+  main_text = '@Engine("sqlite");\n' + render_module(main_rules, main_imports)
+  flat_text = Program(flat, [], gen.EXT).text()
+  tables = sorted({t for t in ('E', 'F', 'G') if any((t + '(') in txt for txt in list(files.values()) + [main_text])})
+  return [dict(a=ImportSide(files, main_text, 'T', roots, label='split over files'),
+               b=Side(flat_text, 'T', label='flattened'),
+               tables=tables, K=2, strings_list=[], label='imports/%s' % layout)]
